@@ -40,7 +40,7 @@ FRAGS = ["'", '"', "`", "\\", "$", "$(", ")", "(", "${", "}", "{", "|", "||", "&
          "0.5", "!", "!!", "%", "[", "]", "?", "\t", "alias", "alias Qz='vp_argv'", "Qz", "export", "cd", "unset", "read Qv <<< a",
          "source", "history", "jobs", "fg", "bg", "set -e", "ulimit -n", "vox", "cinfo", "minfd", "exec", "\\\n", "\\$", "\\|",
          "$(vp_out K)", "`vp_out K`", "$(vp_out >)", "$(", "$()", "``", "1 + ", "(", "((", "))", "{,}", "{..}", "{1..}", "{1..9999999999}",
-         "{1..3..0}", "{-5..5..2}", "a" * 50, "'" * 3, "\\" * 3, "🙂", "́", "​", "\u3000", "\u00a0", "\u2003", "\\\u3000", "\\\u00a0"]
+         "{1..3..0}", "{-5..5..2}", "{2147483646..2147483647}", "{-2147483647..-2147483648}", "{1..3..2147483647}", "{2147483640..2147483647..5}", "a" * 50, "'" * 3, "\\" * 3, "🙂", "́", "​", "\u3000", "\u00a0", "\u2003", "\\\u3000", "\\\u00a0"]
 BANNED_WORDS = ("exit", "exec ")
 
 
@@ -224,6 +224,9 @@ def judge_pty(case):
                 return ("violated", "C05:pty:panic@%s:%s" % (f, m.group(2)), res)
             if "exit\r\n" in txt[-40:] or "exit" in txt[-20:]:
                 return ("held", None, res)      # ^D on an empty line: a legitimate exit
+            if txt.count("invalid utf-8 input received") >= 3:
+                # the prompt loop span on a read error (undecodable bytes kept in the line reader's buffer) until ^C killed it
+                return ("violated", "C05:pty:undecodable-input-makes-every-later-read-fail", res)
             return ("violated", "C05:pty:shell-died", res)
         return ("violated", "C05:pty:shell-does-not-serve-the-next-command", res)
     finally:
